@@ -232,41 +232,93 @@ type tokreq struct{ hdr, tok, tok2 string }
 
 var genIdx int
 
+// configured-token classes, enumerated round-robin (case index mod len)
+var cfgClasses = []string{"empty", "ordinary", "whitespace-only", "outer-whitespace", "inner-whitespace", "long", "non-ascii", "ordinary"}
+
+const nonASCII = "äöüßéñçøλжש日本語ключ"
+
+func randRunes(r *kit.Rng, n int) string {
+	rs := []rune(nonASCII)
+	var b strings.Builder
+	for i := 0; i < n; i++ {
+		if r.Chance(40) {
+			b.WriteByte(tokAlphabet[r.Intn(52)])
+		} else {
+			b.WriteRune(rs[r.Intn(len(rs))])
+		}
+	}
+	return b.String()
+}
+
+func configuredToken(r *kit.Rng, class string, first bool) string {
+	ws := []string{" ", "\t", "\n", "  ", " \t\n", "\r\n"}
+	switch class {
+	case "empty":
+		return ""
+	case "whitespace-only":
+		return ws[r.Intn(len(ws))]
+	case "outer-whitespace":
+		t := randToken(r, 2+r.Intn(12))
+		switch r.Intn(4) {
+		case 0:
+			return t + " "
+		case 1:
+			return " " + t
+		case 2:
+			return "\t" + t + "\n"
+		}
+		return " " + t + " "
+	case "inner-whitespace":
+		return randToken(r, 1+r.Intn(6)) + []string{" ", "\t", "  ", "\n"}[r.Intn(4)] + randToken(r, 1+r.Intn(6))
+	case "long":
+		return randToken(r, 600+r.Intn(900))
+	case "non-ascii":
+		return randRunes(r, 2+r.Intn(14))
+	}
+	n := []int{2, 3, 8, 16, 24, 40}[r.Intn(6)]
+	if first {
+		n = 16
+	}
+	return randToken(r, n)
+}
+
 func (comp) Gen(r *kit.Rng, maxLen int, tier string) kit.Case {
 	idx := genIdx
 	genIdx++
-	cfg := ""
-	if idx%2 == 1 {
-		n := []int{2, 3, 8, 16, 24, 40}[r.Intn(6)]
-		if idx == 1 {
-			n = 16
-		}
-		cfg = randToken(r, n)
-	}
+	class := cfgClasses[idx%len(cfgClasses)]
+	cfg := configuredToken(r, class, idx == 1)
 	var reqs []tokreq
-	reqs = append(reqs, tokreq{"none", "", ""}, tokreq{"one", "", ""})
+	reqs = append(reqs, tokreq{"none", "", ""}, tokreq{"one", "", ""},
+		tokreq{"one", " ", ""}, tokreq{"one", "\t", ""}, tokreq{"one", "\n", ""}, tokreq{"one", "  ", ""}) // whitespace-only request tokens
 	if cfg == "" {
 		reqs = append(reqs, tokreq{"one", randToken(r, 1+r.Intn(20)), ""}, tokreq{"one", "x", ""},
-			tokreq{"two", "", randToken(r, 6)}, tokreq{"one", "null", ""})
+			tokreq{"two", "", randToken(r, 6)}, tokreq{"two", " ", ""}, tokreq{"one", "null", ""}, tokreq{"one", randRunes(r, 4), ""})
 	} else {
 		other := randToken(r, len(cfg))
 		for other == cfg {
 			other = randToken(r, len(cfg))
 		}
+		trimmed := strings.TrimSpace(cfg)
+		squeezed := strings.Join(strings.Fields(cfg), "")
 		reqs = append(reqs,
-			tokreq{"one", cfg[:len(cfg)-1], ""},             // longest proper prefix
-			tokreq{"one", cfg[:r.Intn(len(cfg))], ""},       // some proper prefix
-			tokreq{"one", cfg[1:], ""},                      // proper suffix
+			tokreq{"one", cfg[:len(cfg)-1], ""},                // longest proper prefix
+			tokreq{"one", cfg[:r.Intn(len(cfg))], ""},          // some proper prefix
+			tokreq{"one", cfg[1:], ""},                         // proper suffix
 			tokreq{"one", cfg + randToken(r, 1+r.Intn(3)), ""}, // extension
-			tokreq{"one", randToken(r, 1) + cfg, ""},        // extension in front
-			tokreq{"one", swapCase(cfg), ""},                // case variant
-			tokreq{"one", strings.ToUpper(cfg), ""},         // case variant
-			tokreq{"one", strings.ToLower(cfg), ""},         // case variant
-			tokreq{"one", cfg + " ", ""},                    // trailing blank
-			tokreq{"one", other, ""},                        // same length, different
-			tokreq{"one", cfg, ""},                          // exact
-			tokreq{"two", other, cfg},                       // exact only as second value
-			tokreq{"two", cfg, other},                       // exact as first value
+			tokreq{"one", randToken(r, 1) + cfg, ""},           // extension in front
+			tokreq{"one", swapCase(cfg), ""},                   // case variant
+			tokreq{"one", strings.ToUpper(cfg), ""},            // case variant
+			tokreq{"one", strings.ToLower(cfg), ""},            // case variant
+			tokreq{"one", cfg + " ", ""},                       // exact + trailing blank
+			tokreq{"one", " " + cfg, ""},                       // leading blank + exact
+			tokreq{"one", cfg + "\n", ""},                      // exact + newline
+			tokreq{"one", trimmed, ""},                         // trimmed variant (= exact when there is nothing to trim)
+			tokreq{"one", squeezed, ""},                        // all whitespace removed
+			tokreq{"one", other, ""},                           // same length, different
+			tokreq{"one", cfg, ""},                             // exact
+			tokreq{"two", other, cfg},                          // exact only as second value
+			tokreq{"two", "", cfg},                             // empty first value, exact second
+			tokreq{"two", cfg, other},                          // exact as first value
 		)
 	}
 	var ops []string
@@ -281,7 +333,7 @@ func (comp) Gen(r *kit.Rng, maxLen int, tier string) kit.Case {
 	for i, s := range secrets {
 		enc[i] = kit.Enc(s)
 	}
-	return kit.Case{Header: fmt.Sprintf("cfgtok=%s secrets=%s", kit.Enc(cfg), strings.Join(enc, ",")), Ops: ops}
+	return kit.Case{Header: fmt.Sprintf("cfgtok=%s secrets=%s cls=%s", kit.Enc(cfg), strings.Join(enc, ","), class), Ops: ops}
 }
 
 type runner struct {
